@@ -162,3 +162,18 @@ pub fn c02_twin_mul_unfused() {
     let got = sc2(r.hi(), r.lo(), emin);
     assert!(got.is_some() && got.unwrap() == prod(a, b, emin).unwrap());
 }
+
+/// as `eft_add_cell` but with the anchor pinned to be(a) = 1023 (a in [1,2))
+pub fn eft_add_cell_pinned(sub: bool, d: i32) {
+    let a = any_in_binade(1023);
+    let b = any_in_binade(1023 - d);
+    check_add(sub, a, b, if d >= 0 { 1023 - d } else { 1023 });
+}
+
+/// new_mul on a pinned exponent pair with only the leading `m` fraction bits of each operand free
+pub fn eft_mul_cell_m(ea: i32, eb: i32, m: u32) {
+    let a = any_in_binade_m(ea, m);
+    let b = any_in_binade_m(eb, m);
+    check_mul(a, b);
+}
+
